@@ -557,8 +557,23 @@ def check_sutra_plant(ctx) -> None:
     for k in need:
         ctx.require(k in defs, f'SurfacePlantSUTRA.Calculate: `{k}` is not assigned at the top level (idiom changed)')
     tr = Translator(wrappers='opaque')
+    from gxstat.inline import inline_sequential
+    from gxstat.srcmodel import clone
+
+    def full(k: str) -> ast.AST:
+        """The value stored into k, over named intermediates; reads of the two step series stored just before are what was stored there."""
+        st = defs[k]
+        e = inline_sequential(st.value, st)
+
+        class Stored(ast.NodeTransformer):
+            def visit_Attribute(self, n):
+                t = norm(n)
+                if isinstance(n.ctx, ast.Load) and t in need[:2] and t != k and defs[t].lineno < st.lineno:
+                    return full(t)
+                return self.generic_visit(n)
+        return Stored().visit(clone(e))
     try:
-        hp, ax, tot = (tr.tr(defs[k].value) for k in need)
+        hp, ax, tot = (tr.tr(full(k)) for k in need)
     except Unsupported as e:
         raise AnalysisError(f'SurfacePlantSUTRA.Calculate: outside the supported algebra: {e}')
     ctx.check(tot.equals(hp + ax), 'F10', 'SurfacePlantSUTRA.Calculate/total=storage+auxiliary', f'{rel}:{defs[need[2]].lineno}',
